@@ -184,11 +184,14 @@ def exec_scenario(scn):
         elif kind == "GC":
             gc.collect()
 
+    op_events = []
+
     def body(t):
         for j, op in enumerate(threads[t]):
             baton.begin_op(t, j, cancellable=op["op"] in JUDGED)
             try:
                 run_op(t, j, op)
+                op_events.append((t, j, baton.op_events[t]))
             except SimCancelled:
                 stats["cancelled"] += 1
                 baton.end_op(t)
@@ -213,7 +216,7 @@ def exec_scenario(scn):
     derived = [[t, j, {k: v for k, v in op.items() if k != "_derived"}]
                for t, th in enumerate(threads) for j, op in enumerate(th) if op.get("_derived")]
     out = {
-        "obs": obs, "viol": viol, "derived": derived,
+        "obs": obs, "viol": viol, "derived": derived, "op_events": op_events,
         "events": baton.events, "switches": baton.switches,
         "digest": baton.digest(), "first": baton.first,
         "recorded": baton.recorded, "exits": baton.exit_recorded,
@@ -449,8 +452,10 @@ def hashctx_batch(job):
 
 TIERS = {
     # runs, sim seconds cap, hash contexts, hashctx corpus extra docs
-    "quick": {"runs": 2400, "sim_s": 70, "ctx": 24, "docs": 400, "ctx_s": 60},
-    "thorough": {"runs": 60000, "sim_s": 1000, "ctx": 192, "docs": 4000, "ctx_s": 500},
+    "quick": {"runs": 2400, "sim_s": 55, "ctx": 24, "docs": 600, "ctx_s": 60,
+              "sweep_pairs": 3, "sweep_stride": 3, "sweep_s": 30},
+    "thorough": {"runs": 60000, "sim_s": 900, "ctx": 192, "docs": 4000, "ctx_s": 500,
+                 "sweep_pairs": 40, "sweep_stride": 1, "sweep_s": 600},
 }
 
 
@@ -583,6 +588,91 @@ class Checker:
                                     on_result=got, deadline=deadline, stop=stop)
         return started
 
+    # -- phase A2: single-pre-emption sweep ---------------------------------------
+    def phase_sweep(self, atlas):
+        """For seeded pairs of documents (A, B): thread 0 extracts A, thread 1
+        extracts B.  One run per line event k of A's call: thread 0 is pre-empted
+        at exactly that event, thread 1 runs its whole call, thread 0 resumes.
+        With stride 1 this enumerates *every* single-pre-emption interleaving of
+        the two calls, so a check-then-act window of any width is hit by
+        construction rather than by luck."""
+        g = seeds.Streams(seeds.h64(self.root, "sweep")).get("gen")
+        tg = textgen.Gen(g, atlas)
+        ties = [a for a in atlas if a["tie"]]
+        stride = max(1, int(os.environ.get("VERIF_C15_SWEEP_STRIDE", self.cfg["sweep_stride"])))
+        npairs = int(os.environ.get("VERIF_C15_SWEEP_PAIRS", self.cfg["sweep_pairs"]))
+        deadline = time.monotonic() + self.cfg["sweep_s"]
+        sw = self.sweep = {"pairs": 0, "points_total": 0, "runs": 0, "stride": stride,
+                           "complete_pairs": 0, "samples": []}
+
+        def doc():
+            fr = [tg.pick(ties)] if ties and g.random() < 0.6 else None
+            t = tg.document(n_items=g.randrange(2, 5), frags=None)
+            if fr:
+                t = tg.cite(fr[0]) + "; " + t
+            return t[:700]
+
+        def mkop(text):
+            x = g.random()
+            if x < 0.2:
+                return {"op": "H1", "text": "", "markup": tg.markup(text),
+                        "clean": ["html", "all_whitespace"]}
+            if x < 0.3:
+                return {"op": "H1", "text": text, "ra": True}
+            return {"op": "H1", "text": text}
+
+        for pi in range(npairs):
+            if time.monotonic() > deadline:
+                break
+            a, b = doc(), doc()
+            if g.random() < 0.2:
+                b = a
+            opa, opb = mkop(a), mkop(b)
+            base = {"seed": seeds.h64(self.root, "sweep", pi), "threads": [[opa], [opb]],
+                    "p": 0.0, "setorder": "off", "cancel_plan": {}, "table": [],
+                    "exits": [[1, 0], [0, 1]], "first": 0, "burst": False}
+            res = forkpool.fork_call(exec_scenario, base, timeout=120)
+            if "_harness" in res:
+                self.harness.append({"sweep": res})
+                continue
+            na = max([n for (t, j, n) in res["op_events"] if t == 0 and j == 0] or [0])
+            if na <= 0:
+                continue
+            sw["pairs"] += 1
+            off = 1 + (pi % stride)
+            points = list(range(off, na + 1, stride))
+            sw["points_total"] += na
+            done = [0]
+
+            def jobs(points=points, base=base):
+                for k in points:
+                    yield dict(base, table=[[0, 0, k, "switch", 1]])
+
+            def got(i, scn, r, done=done, pi=pi):
+                if "_harness" in r:
+                    self.harness.append({"sweep_run": r})
+                    return
+                done[0] += 1
+                sw["runs"] += 1
+                self.cnt["events"] += r["events"]
+                self.cnt["switches"] += r["switches"]
+                self.interleavings.add(r["digest"])
+                for (t, j, kd, od) in r["obs"]:
+                    if not self.observe(kd, od, ("sweep", pi, scn["table"][0][2], t), "threads"):
+                        self.suspects[-1]["scn"] = dict(scn)
+                        self.suspects[-1]["op"] = scn["threads"][t][j]
+                for (cls, t, j, detail) in r["viol"]:
+                    self.suspects.append({"class": cls, "scn": dict(scn), "at": (t, j),
+                                          "detail": detail, "run": ("sweep", pi)})
+
+            forkpool.run_jobs(jobs(), exec_scenario, workers=_cpu(), timeout=90, on_result=got,
+                              deadline=deadline, stop=lambda: len(self.suspects) >= 40)
+            if done[0] == len(points):
+                sw["complete_pairs"] += 1
+            if len(sw["samples"]) < 2:
+                sw["samples"].append({"A": _op_brief(opa), "B": _op_brief(opb), "line_events_of_A": na,
+                                      "preemption_points_run": done[0]})
+
     # -- phase B: hash contexts -----------------------------------------------
     def corpus(self, atlas):
         g = seeds.Streams(seeds.h64(self.root, "corpus")).get("gen")
@@ -600,8 +690,12 @@ class Checker:
             else:
                 t = tg.document(n_items=g.randrange(1, 6))
             op = {"op": "H1", "text": t}
-            if g.random() < 0.15:
+            y = g.random()
+            if y < 0.15:
                 op["ra"] = True
+            elif y < 0.32:
+                op = {"op": "H1", "text": "", "markup": tg.markup(t),
+                      "clean": ["html", "all_whitespace"]}
             oplist.append(op)
         # a few subset-tokenizer ops (reference and Hyperscan)
         for i in range(max(4, self.cfg["docs"] // 40)):
@@ -907,6 +1001,7 @@ class Checker:
             "set_order_mode_per_run": c["setorder_hist"],
             "set_order_iterations_seen": c["shim_iterations"],
             "set_order_iterations_reordered": c["shim_reordered"],
+            "single_preemption_sweep": getattr(self, "sweep", None),
             "forced_window_hits": dict(sorted(self.window_hits.items())),
             "faults_injected": {
                 "cancellations_fired": c["cancellations"],
@@ -967,6 +1062,10 @@ def run(tier, verif_seed, log=print):
     started = ck.phase_sim(atlas)
     log(f"[C15] simulated runs: {ck.cnt['runs']} (started {started}), events={ck.cnt['events']}, "
         f"switches={ck.cnt['switches']}, suspects={len(ck.suspects)} ({time.monotonic() - t0:.1f}s)")
+    ck.phase_sweep(atlas)
+    log(f"[C15] single-pre-emption sweep: {ck.sweep['pairs']} pairs, {ck.sweep['runs']} runs over "
+        f"{ck.sweep['points_total']} pre-emption points (stride {ck.sweep['stride']}), "
+        f"suspects={len(ck.suspects)} ({time.monotonic() - t0:.1f}s)")
     ck.phase_hashctx(atlas)
     log(f"[C15] hash contexts: {ck.ctx_done} x {ck.ctx_ops} ops, suspects={len(ck.suspects)} "
         f"({time.monotonic() - t0:.1f}s)")
